@@ -36,6 +36,10 @@ def decorate(rng, doc):
         if rng.random() < 0.3 and t["kind"] not in ("abstime", "reltime"):
             t["unit"] = rng.choice(["V", "deg C", "s"])
         if t["kind"] == "abstime":
+            # time types express their calibration as Encoding scale/offset: a polynomial [offset, scale] (the writer refuses others)
+            t["enc"]["context"] = None
+            t["enc"]["default"] = rng.choice([None, ["poly", [[docs.fnum(-2.5), 0], [docs.fnum(0.001), 1]]], ["poly", [[docs.fnum(1e-6), 1]]],
+                                              ["poly", [[docs.fnum(100.0), 0], [docs.fnum(1.0), 1]]]])
             t.update(kind=rng.choice(["abstime", "reltime"]), unit=rng.choice([None, "s", "ms"]), epoch=rng.choice([None, "TAI", "2000-01-01T00:00:00"]),
                      offset_from=rng.choice([None, "SRC_SEQ_CTR"]))
         if t["kind"] == "str" and rng.random() < 0.3:
@@ -101,7 +105,7 @@ def coq_input(case):
         warnings.simplefilter("ignore")
         d = build(case)
     dump = xmlcorr.dump_definition(d)
-    return f"(Some {core.cstr(xmlcorr.XTCE_URI)}, {core.cstr(DATE)}, {xmlcorr.dump_to_xdoc_coq(dump)})"
+    return f"({xmlcorr.copt(d.xtce_schema_uri)}, {core.cstr(DATE)}, {xmlcorr.dump_to_xdoc_coq(dump)})"
 
 
 def key(case):
